@@ -5,6 +5,7 @@ package main
 import (
 	"fmt"
 	"go/types"
+	"regexp"
 	"strings"
 )
 
@@ -14,6 +15,12 @@ type Val struct {
 	// Sorts is only set for spec-only values without a Go type.
 	Sorts []string
 }
+
+var (
+	byteRe = regexp.MustCompile(`\bbyte\b`)
+	runeRe = regexp.MustCompile(`\brune\b`)
+	anyRe  = regexp.MustCompile(`\bany\b`)
+)
 
 type comp struct {
 	Suffix string
@@ -114,6 +121,9 @@ func typeKey(t types.Type) string {
 		return "Dtype"
 	}
 	s := types.TypeString(t, func(p *types.Package) string { return p.Name() })
+	s = byteRe.ReplaceAllString(s, "uint8")
+	s = runeRe.ReplaceAllString(s, "int32")
+	s = anyRe.ReplaceAllString(s, "interface{}")
 	r := strings.NewReplacer("*", "P_", "[]", "S_", "[", "A", "]", "_", ".", "_", " ", "", "{", "L", "}", "R", ";", "_", ",", "_", "(", "_", ")", "_", "/", "_", "-", "_", "|", "_", "~", "_")
 	return r.Replace(s)
 }
